@@ -159,8 +159,72 @@ def exact(code, val):
     return ("obj", id(val))
 
 
+def run_recursive(case, history):
+    """Recursion pattern: G(n, s) instantiates G(n-1, s)."""
+    h = setup()
+    out = {"fails": [], "notes": []}
+    if history == "calls":
+        for k in range(50):
+            def f(params: h.HasNoParams) -> h.Module:
+                return h.Module()
+            f.__name__ = "Noise%d" % k
+            h.generator(f)()
+    elif history == "alloc":
+        junk = [{"k": i} for i in range(100000)]
+    RP = h.paramclass(type("RP", (), {"n": h.Param(dtype=int, desc="depth"), "s": h.Param(dtype=str, desc="tag", default="")}))
+    counts = {}
+
+    def body(params: RP) -> h.Module:
+        key = (params.n, params.s)
+        counts[key] = counts.get(key, 0) + 1
+        m = h.Module()
+        m.add(h.Signal(name="x"))
+        if params.n > 0:
+            m.add(RG(n=params.n - 1, s=params.s)(), name="sub")
+        return m
+    body.__name__ = "RG"
+    RG = h.generator(body)
+    n1, n2, s1, s2 = case["n1"], case["n2"], case["s1"], case["s2"]
+    try:
+        m1 = RG(n=n1, s=s1)
+        m2 = RG(RP(n=n2, s=s2))
+        m1b = RG(n=n1, s=s1)
+    except Exception as e:
+        out["fails"].append(("generator_call_raises:%s" % type(e).__name__, "recursive generator raised %s: %s" % (type(e).__name__, str(e)[-200:])))
+        return out
+    out["names"] = [m1.name, m2.name]
+    equal = (n1, s1) == (n2, s2)
+    if m1b is not m1:
+        out["fails"].append(("not_memoised_same_call", "recursive generator called twice with equal parameters returned two Modules"))
+    if equal and m1 is not m2:
+        out["fails"].append(("not_memoised:recursive", "equal parameters gave two Modules"))
+    if not equal and (m1 is m2 or m1.name == m2.name):
+        out["fails"].append(("name_collision:recursive", "unequal parameters (%r,%r)/(%r,%r) gave one module or one name %r" % (n1, s1, n2, s2, m1.name)))
+    over = {k: v for k, v in counts.items() if v != 1}
+    if over:
+        out["fails"].append(("body_ran_more_than_once:recursive", "generator body ran more than once for %s" % over))
+    want = set([(k, s1) for k in range(n1 + 1)] + [(k, s2) for k in range(n2 + 1)])
+    if set(counts) != want:
+        out["fails"].append(("recursion_calls", "bodies run for %s, expected %s" % (sorted(counts), sorted(want))))
+    top = h.Module(name="Top")
+    top.add(m1(), name="a")
+    top.add(m2(), name="b")
+    try:
+        pkg = h.to_proto(top)
+        names = [pm.name for pm in pkg.modules if not pm.name.endswith(".Top")]
+        if len(set(names)) != len(names) or len(names) != len(want):
+            out["fails"].append(("export_module_count:recursive", "exported %s, expected %d distinct generated modules" % (names, len(want))))
+    except Exception as e:
+        out["fails"].append(("export_raises:%s:recursive" % type(e).__name__, str(e)[-300:]))
+    out["equal"] = equal
+    out["rendered_equal"] = False
+    return out
+
+
 def run_case(case, history="plain"):
     """Runs in a pristine child."""
+    if case.get("pattern") == "recursive":
+        return run_recursive(case, history)
     import dataclasses
     w = World(case)
     h = w.h
@@ -357,6 +421,10 @@ def strategies():
             vals1["a"], vals1["b"] = {"t": "str", "v": "x b=y"}, {"t": "str", "v": "z"}
             vals2 = json.loads(json.dumps(vals1))
             vals2["a"], vals2["b"] = {"t": "str", "v": "x"}, {"t": "str", "v": "y b=z"}
+        if draw(st.integers(0, 11)) == 0:
+            strs_r = st.sampled_from(["", "x", "x y", "a=1", "None"])
+            return {"pattern": "recursive", "fields": [["n", "int"], ["s", "str"]], "vals1": {}, "vals2": {},
+                    "n1": draw(st.integers(0, 4)), "n2": draw(st.integers(0, 4)), "s1": draw(strs_r), "s2": draw(strs_r)}
         pattern = draw(st.sampled_from(["direct", "direct", "direct", "passthrough", "passthrough2", "nested", "both_through"]))
         return {"fields": fields, "vals1": vals1, "vals2": vals2, "pattern": pattern,
                 "form1": draw(st.sampled_from(["kw", "inst"])), "form2": draw(st.sampled_from(["kw", "inst"]))}
